@@ -91,6 +91,10 @@ macro_rules! define_histogram_common {
             /// Fails if the sample is out of range of the histogram.
             #[inline]
             pub fn find(&self, x: f64) -> Result<usize, $crate::SampleOutOfRangeError> {
+                // NaN is not contained in any bin.
+                if x.is_nan() {
+                    return Err($crate::SampleOutOfRangeError);
+                }
                 // We made sure our ranges are valid at construction, so we can
                 // safely unwrap.
                 match self.range.binary_search_by(|p| p.partial_cmp(&x).unwrap()) {
